@@ -165,22 +165,25 @@ Verdict(D) ==
              ELSE [cls |-> "arbitrary", why |-> w, broken |-> br, codes |-> {}, at |-> {}]
 
 -----------------------------------------------------------------------------
-\* Part 4: bounded grammar.  GV(d, n) = values of container depth <= d with exactly n nodes,
+\* Part 4: bounded grammar.  GVd[n] = values of container depth <= d (d <= 3) with exactly n nodes,
 \* at most 2 members per container, object keys in the order of Keys.
 KeyPairs == {p \in (1..Len(Keys)) \X (1..Len(Keys)) : p[1] < p[2]}
-RECURSIVE GV(_, _)
-GV(d, n) ==
-    IF n < 1 THEN {}
-    ELSE (IF n = 1 THEN GScalars ELSE {})
-         \cup (IF d = 0 THEN {}
-               ELSE (IF n = 1 THEN {List(<<>>), Obj(<<>>)} ELSE {})
-                    \cup {List(<<v>>) : v \in GV(d - 1, n - 1)}
-                    \cup {Obj(<< <<Keys[k], v>> >>) : k \in 1..Len(Keys), v \in GV(d - 1, n - 1)}
-                    \cup UNION {{List(<<v, w>>) : v \in GV(d - 1, a), w \in GV(d - 1, n - 1 - a)}
-                                \cup {Obj(<< <<Keys[p[1]], v>>, <<Keys[p[2]], w>> >>) :
-                                         p \in KeyPairs, v \in GV(d - 1, a), w \in GV(d - 1, n - 1 - a)}
-                                : a \in 1..(n - 2)})
-GDocs == UNION {GV(MaxDepth, n) : n \in 1..MaxNodes}
+\* one more level of containers over the values P[n] (n = node count) of the level below
+Grow(P) == [n \in 1..MaxNodes |->
+              (IF n = 1 THEN GScalars \cup {List(<<>>), Obj(<<>>)} ELSE {})
+              \cup (IF n < 2 THEN {} ELSE
+                      {List(<<v>>) : v \in P[n - 1]}
+                      \cup {Obj(<< <<Keys[k], v>> >>) : k \in 1..Len(Keys), v \in P[n - 1]})
+              \cup UNION {{List(<<v, w>>) : v \in P[a], w \in P[n - 1 - a]}
+                          \cup {Obj(<< <<Keys[p[1]], v>>, <<Keys[p[2]], w>> >>) :
+                                   p \in KeyPairs, v \in P[a], w \in P[n - 1 - a]}
+                          : a \in 1..(n - 2)}]
+GV0 == [n \in 1..MaxNodes |-> IF n = 1 THEN GScalars ELSE {}]
+GV1 == Grow(GV0)
+GV2 == Grow(GV1)
+GV3 == Grow(GV2)
+GVTop == IF MaxDepth = 0 THEN GV0 ELSE IF MaxDepth = 1 THEN GV1 ELSE IF MaxDepth = 2 THEN GV2 ELSE GV3
+GDocs == UNION {GVTop[n] : n \in 1..MaxNodes}
 
 -----------------------------------------------------------------------------
 \* Part 5: fault injection
